@@ -63,6 +63,8 @@ pub open spec fn mp4a_at(d: Seq<u8>, q: int, size: u64, b: Mp4aBox) -> bool {
     &&& b.data_reference_index == be16(d, q + 6)
     &&& b.channelcount == be16(d, q + 16) && b.samplesize == be16(d, q + 18) && b.samplerate.0.numer == be32(d, q + 24)
     &&& (b.esds is Some <==> first_esds(d, mp4a_children_start(d, q), q - 8 + size) is Some)
+    &&& (b.esds matches Some(e) ==> (first_esds(d, mp4a_children_start(d, q), q - 8 + size) matches Some(p)
+            && esds_at(d, child_q(d, p), child_size(d, p), e)))
 }
 
 // ---- AudioSpecificConfig (ISO/IEC 14496-3 1.6.2.1), the two-byte form the muxer writes:
